@@ -119,7 +119,7 @@ NAMES_CAND = ["dataset_name", "_id", "user_id", "id_", "id", "tbl_name", "valid_
 NAMES_PLAIN = ["_rev", "a", "b", "foo", "bar_baz", "x1", "K", "lr", "epochs", "owner", "n_items", "width", "identity", "kwargs", "model_kwargs",
                "params", "name", "ids", "idx", "pid", "id2", "ID", "Id"]
 TEXTS = ["the alpha thing", "dataset name", "learning rate used", "a thing", "some text here", "flag for verbosity", "Random seed",
-         "e.g. 5", "has [brackets] inside", "PK of nothing", "etc. and so on", "x"]
+         "e.g. 5", "has [brackets] inside", "PK of nothing", "etc. and so on", "x", "naïve café – ünï", "it's 'quoted' inside", "100% of a/b"]
 FK_TARGETS = ["user.id", "tbl.col", "other_table.dataset_name", "t.c"]
 HEADER_DOCS = ["", "Summary line.", "Summary line.\n\nLonger description here.", "A table of things", "  indented start"]
 
